@@ -1,12 +1,16 @@
 (* C12 — Timeout / cancellation runners always return and always signal the action.
    Property theorems only; each is closed by a lemma of Proofs*.v and followed by Print Assumptions.
+   EVERY theorem is about the models instantiated with [gen_facts] (GU.C12.Gen), the record of facts that
+   translator-c12/cmd/facts2coq extracts from parallelisation.go / cancel_functions.go on every run (channel capacities, the
+   statements of each select branch, registrations, deferred calls, lock modes, whether Register copies): when the source
+   changes these facts, the reachable sets are recomputed and the obligations re-checked for the new instance.
    Models: GU.C12.Model (t_*: RunActionWithTimeout after the fix; x_*: ...AndContext / ...AndCancelStore; p_*: Parallelise;
    s_*: CancelFunctionStore), interleaving semantics GU.C12.Conc: a schedule is ANY list of labels (goroutine steps, timer,
    parent context, the action's own decisions), so "for all sched" covers every completion instant of the action
    relative to the deadline and every resolution of every select. *)
 From Coq Require Import List ZArith Bool Arith Permutation.
 Import ListNotations.
-From GU Require Import C12.Proofs.
+From GU Require Import C12.Facts C12.Gen C12.Proofs.
 
 (** ** RunActionWithTimeout (stop channel of capacity 1) *)
 
@@ -16,7 +20,7 @@ From GU Require Import C12.Proofs.
    an action that completes before the timer can fire gets its own result; one that only returns when told has
    seen the signal. *)
 Theorem runner_result : forall c sched r,
-  let s := run (t_step true c) t_init sched in
+  let s := run (t_step gen_facts c) t_init sched in
   t_pc s = TDone r ->
   t_a s = ASent /\
   (r = res_of (a_out c) /\ t_sent s = false \/ r = RTimeout /\ t_fired s = true /\ t_sent s = true) /\
@@ -29,20 +33,20 @@ Print Assumptions runner_result.
 (* No reachable state has the runner blocked: as long as it has not returned, an action that is GUARANTEED to happen
    is enabled (runner, timer, result hand-over always; the action's return only once it has been signalled). *)
 Theorem runner_no_deadlock : forall c, a_wf c = true -> forall sched,
-  let s := run (t_step true c) t_init sched in
-  t_is_done s = false -> exists t, t_G c s t = true /\ t_step true c s t <> None.
+  let s := run (t_step gen_facts c) t_init sched in
+  t_is_done s = false -> exists t, t_G c s t = true /\ t_step gen_facts c s t <> None.
 Proof. exact t_no_deadlock_l. Qed.
 Print Assumptions runner_no_deadlock.
 
 (* Hence, under weak fairness only ("a continuously enabled guaranteed action eventually happens"), on every infinite
-   schedule the runner returns; and no schedule makes more than 7 effective steps. *)
+   schedule the runner returns; and no schedule makes more than [t_rank gen_facts t_init] (= 9) effective steps. *)
 Theorem runner_terminates : forall c, a_wf c = true -> forall sigma,
-  weakly_fair (t_step true c) (t_G c) t_init sigma ->
-  exists k, t_is_done (state_at (t_step true c) t_init sigma k) = true.
+  weakly_fair (t_step gen_facts c) (t_G c) t_init sigma ->
+  exists k, t_is_done (state_at (t_step gen_facts c) t_init sigma k) = true.
 Proof. exact t_terminates_l. Qed.
 Print Assumptions runner_terminates.
 
-Theorem runner_steps_bounded : forall c sched, effective (t_step true c) t_init sched <= 7.
+Theorem runner_steps_bounded : forall c sched, effective (t_step gen_facts c) t_init sched <= t_rank gen_facts t_init.
 Proof. exact t_steps_bounded_l. Qed.
 Print Assumptions runner_steps_bounded.
 
@@ -50,9 +54,10 @@ Print Assumptions runner_steps_bounded.
    move while the runner has not returned.  Kept to document why the fix is needed; the harness replays it on the
    implementation on every run (it must pass now). *)
 Theorem runner_deadlocks_with_unbuffered_stop :
+  let f := set_stop_cap 0 gen_facts in
   exists c sched, a_wf c = true /\
-    (forall t, t_step false c (run (t_step false c) t_init sched) t = None) /\
-    t_is_done (run (t_step false c) t_init sched) = false.
+    (forall t, t_step f c (run (t_step f c) t_init sched) t = None) /\
+    t_is_done (run (t_step f c) t_init sched) = false.
 Proof. exact t_unbuffered_deadlock_l. Qed.
 Print Assumptions runner_deadlocks_with_unbuffered_stop.
 
@@ -61,7 +66,7 @@ Print Assumptions runner_deadlocks_with_unbuffered_stop.
 (* The runner never returns while the action is running; it starts no action only when the parent context had ended,
    and then reports the parent's kind. *)
 Theorem ctx_runner_waits_for_action : forall c sched r,
-  let s := run (x_step c) (x_init c) sched in
+  let s := run (x_step gen_facts c) (x_init c) sched in
   x_pc s = CDone r ->
   (x_act s = Some ASent /\ x_chan s = false) \/
   (x_act s = None /\ x_parent s <> PLive /\ r = kind_of (x_parent s)).
@@ -72,7 +77,7 @@ Print Assumptions ctx_runner_waits_for_action.
    fired or parent deadline), or `cancelled` with the timeout context cancelled by the parent or by another caller of
    the store's Cancel. *)
 Theorem ctx_runner_result : forall c sched r,
-  let s := run (x_step c) (x_init c) sched in
+  let s := run (x_step gen_facts c) (x_init c) sched in
   x_pc s = CDone r -> x_act s <> None ->
   r = res_of (a_out (x_a c)) \/
   (r = RTimeout /\ x_tctx s = PDead /\ (x_fired s = true \/ x_parent s = PDead)) \/
@@ -84,7 +89,7 @@ Print Assumptions ctx_runner_result.
    the action failed or was signalled — the only path that leaves it live is "the action returned nil by itself"
    (by design: the file lock's heartbeat keeps running under that context). *)
 Theorem ctx_runner_signals_action : forall c sched r,
-  let s := run (x_step c) (x_init c) sched in
+  let s := run (x_step gen_facts c) (x_init c) sched in
   x_pc s = CDone r -> x_act s <> None ->
   (x_store c = false -> x_cret s = true) /\
   (r = RErr -> x_cret s = true) /\
@@ -93,7 +98,7 @@ Proof. exact x_signals_l. Qed.
 Print Assumptions ctx_runner_signals_action.
 
 Theorem ctx_runner_classes : forall c sched r,
-  let s := run (x_step c) (x_init c) sched in
+  let s := run (x_step gen_facts c) (x_init c) sched in
   x_pc s = CDone r -> x_act s <> None ->
   (a_own (x_a c) = Never -> x_saw s = true /\ r <> res_of (a_out (x_a c))) /\
   (a_own (x_a c) = Late -> r <> res_of (a_out (x_a c))) /\
@@ -102,24 +107,24 @@ Proof. exact x_classes_l. Qed.
 Print Assumptions ctx_runner_classes.
 
 Theorem ctx_runner_no_deadlock : forall c, x_wf c = true -> forall sched,
-  let s := run (x_step c) (x_init c) sched in
-  x_is_done s = false -> exists t, x_G c s t = true /\ x_step c s t <> None.
+  let s := run (x_step gen_facts c) (x_init c) sched in
+  x_is_done s = false -> exists t, x_G c s t = true /\ x_step gen_facts c s t <> None.
 Proof. exact x_no_deadlock_l. Qed.
 Print Assumptions ctx_runner_no_deadlock.
 
 Theorem ctx_runner_terminates : forall c, x_wf c = true -> forall sigma,
-  weakly_fair (x_step c) (x_G c) (x_init c) sigma ->
-  exists k, x_is_done (state_at (x_step c) (x_init c) sigma k) = true.
+  weakly_fair (x_step gen_facts c) (x_G c) (x_init c) sigma ->
+  exists k, x_is_done (state_at (x_step gen_facts c) (x_init c) sigma k) = true.
 Proof. exact x_terminates_l. Qed.
 Print Assumptions ctx_runner_terminates.
 
 (* The sets of allowed observations used by the correspondence check are complete: the observation of every schedule
    that runs to quiescence is listed (so an implementation observation outside the set contradicts the model). *)
 Theorem allowed_observations_complete :
-  (forall c sched, (forall t, t_step true c (run (t_step true c) t_init sched) t = None) ->
-                   In (t_observe (run (t_step true c) t_init sched)) (t_allowed true c)) /\
-  (forall c sched, (forall t, x_step c (run (x_step c) (x_init c) sched) t = None) ->
-                   In (x_observe (run (x_step c) (x_init c) sched)) (x_allowed c)).
+  (forall c sched, (forall t, t_step gen_facts c (run (t_step gen_facts c) t_init sched) t = None) ->
+                   In (t_observe (run (t_step gen_facts c) t_init sched)) (t_allowed gen_facts c)) /\
+  (forall c sched, (forall t, x_step gen_facts c (run (x_step gen_facts c) (x_init c) sched) t = None) ->
+                   In (x_observe (run (x_step gen_facts c) (x_init c) sched)) (x_allowed gen_facts c)).
 Proof. split; [exact t_allowed_complete | exact x_allowed_complete]. Qed.
 Print Assumptions allowed_observations_complete.
 
@@ -132,18 +137,18 @@ Print Assumptions allowed_observations_complete.
    returned — and an error whenever some invocation failed; (3) when nothing can move any more, every action has been
    invoked exactly once, every goroutine has ended and Parallelise has returned. *)
 Theorem parallelise_once_each : forall keep outs sched,
-  let s := run (p_step keep outs) (p_init outs) sched in
+  let s := run (p_step (par_cap gen_facts (length outs)) keep outs) (p_init outs) sched in
   (length (p_w s) = length outs /\ Forall (fun st => calls_of st <= 1) (p_w s) /\
-   forall i, nth_error (p_w s) i = Some WCalled -> p_step keep outs s (PSend i) <> None) /\
+   forall i, nth_error (p_w s) i = Some WCalled -> p_step (par_cap gen_facts (length outs)) keep outs s (PSend i) <> None) /\
   (forall r, p_main s = MDone r -> par_allowed keep outs r) /\
-  ((forall l, p_step keep outs s l = None) ->
+  ((forall l, p_step (par_cap gen_facts (length outs)) keep outs s l = None) ->
      Forall (fun st => st = WSent /\ calls_of st = 1) (p_w s) /\ exists r, p_main s = MDone r /\ par_allowed keep outs r).
 Proof. exact parallelise_once_each_l. Qed.
 Print Assumptions parallelise_once_each.
 
 (* ... and that point is reached: no schedule makes more than 3n+1 effective steps. *)
 Theorem parallelise_terminates : forall keep outs sched,
-  effective (p_step keep outs) (p_init outs) sched <= 3 * length outs + 1.
+  effective (p_step (par_cap gen_facts (length outs)) keep outs) (p_init outs) sched <= 3 * length outs + 1.
 Proof. exact parallelise_terminates_l. Qed.
 Print Assumptions parallelise_terminates.
 
@@ -153,7 +158,7 @@ Print Assumptions parallelise_terminates.
    completed Cancel has invoked every function whose Register had returned when that Cancel was called; a
    registration that has returned is never lost (the append is modelled as read-then-write: this needs the lock). *)
 Theorem cancel_store_complete : forall progs sched,
-  let s := run s_step (s_init progs) sched in
+  let s := run (s_step gen_facts) (s_init progs) sched in
   (forall must called, In (must, called) (s_cancels s) -> incl must called) /\
   incl (s_regdone s) (s_fns s) /\
   (forall j th todo, nth_error (s_threads s) j = Some th -> th_pc th = SCanLoop todo ->
@@ -163,9 +168,9 @@ Print Assumptions cancel_store_complete.
 
 (* The lock discipline cannot deadlock: unless every goroutine has finished its program, some goroutine can step. *)
 Theorem cancel_store_no_deadlock : forall progs sched,
-  let s := run s_step (s_init progs) sched in
+  let s := run (s_step gen_facts) (s_init progs) sched in
   (exists j th, nth_error (s_threads s) j = Some th /\ th_finished th = false) ->
-  exists i, s_step s i <> None.
+  exists i, s_step gen_facts s i <> None.
 Proof. exact store_no_deadlock_l. Qed.
 Print Assumptions cancel_store_no_deadlock.
 
@@ -176,48 +181,48 @@ Print Assumptions parallelise_check_complete.
 
 (** ** Non-vacuity *)
 Example runner_returns_own_result :
-  t_pc (run (t_step true (mkA OErr true Near)) t_init [LRet; LSend; LRecv]) = TDone RErr.
+  t_pc (run (t_step gen_facts (mkA OErr true Near)) t_init [LRet; LSend; LRecv; LRun; LRun]) = TDone RErr.
 Proof. reflexivity. Qed.
 Example runner_times_out_action_ignoring_the_signal :
-  t_observe (run (t_step true (mkA ONil false Late)) t_init [LTimer; LTimeout; LStop; LRet; LSend; LWait])
+  t_observe (run (t_step gen_facts (mkA ONil false Late)) t_init [LTimer; LTimeout; LRun; LRun; LRun; LRet; LSend; LWait])
   = Some (mkTO RTimeout false true).
 Proof. reflexivity. Qed.
 Example runner_race_at_the_deadline :   (* completion and timer both ready: the select may take either *)
-  t_pc (run (t_step true (mkA ONil true Near)) t_init [LTimer; LRet; LSend; LRecv]) = TDone RNil /\
-  t_pc (run (t_step true (mkA ONil true Near)) t_init [LTimer; LRet; LSend; LTimeout; LStop; LWait]) = TDone RTimeout.
+  t_pc (run (t_step gen_facts (mkA ONil true Near)) t_init [LTimer; LRet; LSend; LRecv; LRun; LRun]) = TDone RNil /\
+  t_pc (run (t_step gen_facts (mkA ONil true Near)) t_init [LTimer; LRet; LSend; LTimeout; LRun; LRun; LRun; LWait]) = TDone RTimeout.
 Proof. split; reflexivity. Qed.
 Example ctx_runner_timeout_path :
-  x_observe (run (x_step (mkX true (mkA OErr true Never) PLive None false)) (x_init (mkX true (mkA OErr true Never) PLive None false))
+  x_observe (run (x_step gen_facts (mkX true (mkA OErr true Never) PLive None false)) (x_init (mkX true (mkA OErr true Never) PLive None false))
                  [XRun; XRun; XRun; XRun; XTimer; XSelTimeout; XRun; XSee; XRun; XRun; XRet; XSend; XRun; XRun; XRun])
   = Some (mkXO RTimeout true true true true).
 Proof. reflexivity. Qed.
 Example ctx_store_runner_leaves_context_live_on_success :
-  x_observe (run (x_step (mkX true (mkA ONil true Near) PLive None false)) (x_init (mkX true (mkA ONil true Near) PLive None false))
-                 [XRun; XRun; XRun; XRun; XRet; XSend; XSelChan; XRun; XRun; XRun])
+  x_observe (run (x_step gen_facts (mkX true (mkA ONil true Near) PLive None false)) (x_init (mkX true (mkA ONil true Near) PLive None false))
+                 [XRun; XRun; XRun; XRun; XRet; XSend; XSelChan; XRun; XRun; XRun; XRun])
   = Some (mkXO RNil true false true false).
 Proof. reflexivity. Qed.
 Example wf_classes_exist : a_wf (mkA ONil false Late) = true /\ x_wf (mkX true (mkA OErr true Never) PLive (Some EvExt) true) = true.
 Proof. split; reflexivity. Qed.
 Example parallelise_two_arguments_any_order :
-  p_main (run (p_step true [PItem 10; PItem 20]%Z) (p_init [PItem 10; PItem 20]%Z)
+  p_main (run (p_step 2 true [PItem 10; PItem 20]%Z) (p_init [PItem 10; PItem 20]%Z)
               [PCall 1; PCall 0; PSend 1; PRecv; PSend 0; PRecv; PFinish]) = MDone (PROk [20; 10]%Z).
 Proof. reflexivity. Qed.
 Example parallelise_early_error_leaves_senders_unblocked :
-  let s := run (p_step true [PFail 1; PItem 20; PItem 30]%Z) (p_init [PFail 1; PItem 20; PItem 30]%Z)
+  let s := run (p_step 3 true [PFail 1; PItem 20; PItem 30]%Z) (p_init [PFail 1; PItem 20; PItem 30]%Z)
                [PCall 0; PSend 0; PRecv; PCall 1; PCall 2; PSend 2; PSend 1] in
-  p_main s = MDone (PRErr 1%Z) /\ p_w s = [WSent; WSent; WSent] /\ forall l, p_step true [PFail 1; PItem 20; PItem 30]%Z s l = None.
+  p_main s = MDone (PRErr 1%Z) /\ p_w s = [WSent; WSent; WSent] /\ forall l, p_step 3 true [PFail 1; PItem 20; PItem 30]%Z s l = None.
 Proof. split; [reflexivity|]. split; [reflexivity|]. intros [[|[|[|i]]]|[|[|[|i]]]| |]; try reflexivity; destruct i; reflexivity. Qed.
 Example store_cancel_concurrent_with_register :
   (* goroutine 0: Register 7, Register 8; goroutine 1: Cancel — called after Register 7 has returned, runs while 8 is being registered *)
-  s_cancels (run s_step (s_init [[SReg [7]; SReg [8]]; [SCancel]])
+  s_cancels (run (s_step gen_facts) (s_init [[SReg [7]; SReg [8]]; [SCancel]])
                  [0; 0; 0; 0; 0;  1;  0;  1;  0; 0;  1; 1;  0; 0]) = [([7], [7])].
 Proof. reflexivity. Qed.
 
 (* the fairness premise of the termination theorems is satisfiable: round-robin over the labels is weakly fair *)
 Definition t_index (t : tlabel) : nat :=
-  match t with LTimer => 0 | LRecv => 1 | LTimeout => 2 | LStop => 3 | LWait => 4 | LSee => 5 | LRet => 6 | LSend => 7 end.
+  match t with LTimer => 0 | LRecv => 1 | LTimeout => 2 | LRun => 3 | LWait => 4 | LSee => 5 | LRet => 6 | LSend => 7 end.
 Example round_robin_is_weakly_fair : forall c,
-  weakly_fair (t_step true c) (t_G c) t_init (fun k => nth (k mod 8) tlabels LTimer).
+  weakly_fair (t_step gen_facts c) (t_G c) t_init (fun k => nth (k mod 8) tlabels LTimer).
 Proof.
   intros c t k. exists (t_index t + k * 8). split; [apply PeanoNat.Nat.le_trans with (k * 8); [|apply PeanoNat.Nat.le_add_l]|].
   - rewrite PeanoNat.Nat.mul_comm. simpl. apply PeanoNat.Nat.le_add_r.
@@ -227,9 +232,23 @@ Definition x_index (t : xlabel) : nat :=
   match t with XRun => 0 | XSelChan => 1 | XSelTimeout => 2 | XTimer => 3 | XEv => 4 | XExtBegin => 5 | XExtT => 6
              | XExtA => 7 | XSee => 8 | XRet => 9 | XSend => 10 end.
 Example ctx_round_robin_is_weakly_fair : forall c,
-  weakly_fair (x_step c) (x_G c) (x_init c) (fun k => nth (k mod 11) xlabels XRun).
+  weakly_fair (x_step gen_facts c) (x_G c) (x_init c) (fun k => nth (k mod 11) xlabels XRun).
 Proof.
   intros c t k. exists (x_index t + k * 11). split; [apply PeanoNat.Nat.le_trans with (k * 11); [|apply PeanoNat.Nat.le_add_l]|].
   - rewrite PeanoNat.Nat.mul_comm. simpl. apply PeanoNat.Nat.le_add_r.
   - left. rewrite PeanoNat.Nat.mod_add by discriminate. destruct t; reflexivity.
 Qed.
+
+(* what the generated facts are on this tree, and the consequences that depend on them *)
+Example generated_facts_now :
+  f_rat_stop_cap gen_facts = 1 /\ f_reg_lock gen_facts = LLock /\ f_reg_copies gen_facts = true /\ par_cap gen_facts 5 = 5 /\
+  In XACancelAction (f_x_timeout_branch gen_facts) /\ t_rank gen_facts t_init = 9.
+Proof. repeat split; try reflexivity. simpl; tauto. Qed.
+Example register_needs_the_write_lock_and_the_copy :
+  (let f := mkFacts 1 1 [] [] true true true true true 1 [] [] [] true CapLen LRLock true LRLock LRLock in
+   let s := run (s_step f) (s_init [[SReg [1]]; [SReg [2]]]) [0; 1; 0; 1; 0; 1; 0; 1; 0; 1] in
+   s_regdone s = [2; 1] /\ s_fns s = [2]) /\
+  (let f := mkFacts 1 1 [] [] true true true true true 1 [] [] [] true CapLen LLock false LRLock LRLock in
+   let s := run (s_step f) (s_init [[SReg [1; 2]; SScribble]]) [0; 0; 0; 0; 0; 0] in
+   s_regdone s = [1; 2] /\ s_fns s = []).
+Proof. split; [exact register_under_rlock_loses_a_function | exact register_without_copy_loses_functions]. Qed.
